@@ -1,6 +1,6 @@
 """C28 hierarchy index: Hierarchy.tla / MC_Hierarchy.tla / Hierarchy_Trace.tla, harness bin hier."""
 import json, os
-from .c29 import drop_prefixes
+from .c29 import drop_prefixes, cap
 
 GEN = """SPECIFICATION Spec
 CONSTANTS Nodes = {nodes}
@@ -10,8 +10,9 @@ CONSTANTS Nodes = {nodes}
           MaxUpd = {maxupd}
           MaxEdge = {maxedge}
           Legacy = {legacy}
+          Ordered = {ordered}
 {emit}
-INVARIANTS TypeOK Fresh AnswersMatchGraph
+INVARIANTS TypeOK Fresh {inv}
 CHECK_DEADLOCK FALSE
 """
 
@@ -47,26 +48,31 @@ def run(ctx):
     q = ctx.quick
     W = min(6, int(os.environ.get("VERIF_WORKERS", "6")))
     # self-test: a measure removal that does not reach the index leaves a "fresh" index that disagrees with the graph
-    ctx.tlc_gen("MC_Hierarchy", GEN.format(nodes="{1,2}", mvals="MV2", inits="Inits2", encs='{"auto"}', maxupd=1, maxedge=0, legacy="TRUE", emit=""),
+    ctx.tlc_gen("MC_Hierarchy", GEN.format(nodes="{1,2}", mvals="MV2", inits="Inits2", encs='{"auto"}', maxupd=1, maxedge=0, legacy="TRUE", emit="", inv="", ordered="FALSE"),
                 "legacy-selftest", expect_violation=True, workers=2)
     # OehIndex level: ALL labelled DAGs x every encoding that can be forced x ALL measure-update sequences
-    api = ctx.tlc_gen("MC_Hierarchy", GEN.format(nodes="{1,2,3}", mvals="MV3" if q else "MV4", inits="Inits3a" if q else "Inits3", encs=ALLENC,
-                                                 maxupd=2 if q else 3, maxedge=0, legacy="FALSE", emit=E), "dags3", workers=W, timeout=3000)
-    api += ctx.tlc_gen("MC_Hierarchy", GEN.format(nodes="{1,2,3,4}", mvals="MV2" if q else "MV3", inits="Inits4", encs=ALLENC,
-                                                  maxupd=1 if q else 2, maxedge=0, legacy="FALSE", emit=E), "dags4", workers=W, timeout=3000)
+    # (thorough: the update sequences of length 3 / 2 over 3 / 4 nodes are a seeded sample, every DAG of 5 nodes is built)
+    api = drop_prefixes(ctx.tlc_gen("MC_Hierarchy", GEN.format(nodes="{1,2,3}", mvals="MV3", inits="Inits3a", encs=ALLENC, maxupd=2 if q else 3,
+                                                               maxedge=0, legacy="FALSE", emit=E, inv="AnswersMatchGraph", ordered="FALSE"),
+                                    "dags3", workers=W, timeout=3000))
+    api = cap(ctx, api, 10**9 if q else 20000, "3-node DAGs x update sequences <= 3")
+    a4 = drop_prefixes(ctx.tlc_gen("MC_Hierarchy", GEN.format(nodes="{1,2,3,4}", mvals="MV2" if q else "MV3", inits="Inits4", encs=ALLENC,
+                                                              maxupd=1 if q else 2, maxedge=0, legacy="FALSE", emit=E, inv="", ordered="FALSE"),
+                                   "dags4", workers=W, timeout=3000))
+    api += cap(ctx, a4, 10**9 if q else 30000, "4-node DAGs x update sequences <= 2")
     if not q:
-        api += ctx.tlc_gen("MC_Hierarchy", GEN.format(nodes="{1,2,3,4,5}", mvals="MV2", inits="Inits5", encs=ALLENC,
-                                                      maxupd=1, maxedge=0, legacy="FALSE", emit=E), "dags5", workers=W, timeout=3400)
-    api = drop_prefixes(api)
+        # 5 nodes: every DAG up to renaming of its nodes (edges from larger to smaller numbers: 1024), one update each
+        api += drop_prefixes(ctx.tlc_gen("MC_Hierarchy", GEN.format(nodes="{1,2,3,4,5}", mvals="MV2", inits="Inits5", encs=ALLENC,
+                                                      maxupd=1, maxedge=0, legacy="FALSE", emit=E, inv="", ordered="TRUE"), "dags5", workers=W, timeout=3400))
     # manager / GraphStore / planner level: index declared over the store, measure writes, covering-edge writes, rebuilds
     st = ctx.tlc_gen("MC_Hierarchy", GEN.format(nodes="{1,2,3}", mvals="MV3", inits="Inits3a" if q else "Inits3", encs='{"auto"}',
-                                                maxupd=1, maxedge=1 if q else 2, legacy="FALSE", emit=E), "store3", workers=W, timeout=3000)
+                                                maxupd=1, maxedge=1 if q else 2, legacy="FALSE", emit=E, inv="AnswersMatchGraph", ordered="FALSE"), "store3", workers=W, timeout=3000)
     if not q:
         st += ctx.tlc_gen("MC_Hierarchy", GEN.format(nodes="{1,2,3,4}", mvals="MV2", inits="Inits4", encs='{"auto"}',
-                                                     maxupd=1, maxedge=1, legacy="FALSE", emit=E), "store4", workers=W, timeout=3000)
-    st = drop_prefixes(st)
+                                                     maxupd=1, maxedge=1, legacy="FALSE", emit=E, inv="", ordered="FALSE"), "store4", workers=W, timeout=3000)
+    st = cap(ctx, drop_prefixes(st), 10**9 if q else 8000, "store histories")
     ctx.cov["scripts_after_prefix_removal"] = len(api) + len(st)
-    ctx.assume("every acyclic relation over <= 4 (thorough: 5) labelled nodes is enumerated, i.e. the covering relations AND their "
+    ctx.assume("every acyclic relation over <= 4 labelled nodes (thorough: plus every 5-node DAG up to renaming) is enumerated, i.e. the covering relations AND their "
                "non-reduced supersets; measures are integers and halves (floats k/2), NoM = property absent",
                "a measure write may always mark the index stale instead of being absorbed; a stale index must not answer",
                "COUNT = |{y} + descendants(y)| (answered structurally, as the planner rewrite of count(d) needs)",
@@ -90,7 +96,7 @@ def run(ctx):
         # random trees / forests / near-trees / low-width DAGs up to 300 nodes, certificate-style observations
         shapes = ["tree", "forest", "near", "dag", "chainy"]
         rnd = [{"sid": "big-%d" % i, "random": {"seed": ctx.seed * 15485863 + i, "n": [40, 120, 300][i % 3], "shape": shapes[i % 5], "updates": 6}}
-               for i in range(45)]
+               for i in range(30)]
         sp = ctx.write_scripts("hier-random", rnd, wrap=False)
         tr = ctx.run_harness("hier", sp, name="hier-random", timeout=3000)
         ctx.validate("Hierarchy_Trace", TRACE.format(nodes="<- N300"), tr, name="Hierarchy_Trace-random", corrupt=corrupt, timeout=3000)
